@@ -187,6 +187,8 @@ pub fn child(opts: &Opts) {
   let from = opts.get_usize("from", 0); let to = opts.get_usize("to", 0);
   let err = std::io::stderr();
   for idx in from..to {
+    // a translated block that never returns (a seeded translator defect looped here) is killed: the parent reports sig14
+    unsafe { libc::alarm(20); }
     let c = gen(opts.seed, idx, opts.thorough);
     let i = run_interp(&c);
     { let mut e = err.lock(); writeln!(e, "I {} {}", idx, i).unwrap(); e.flush().unwrap(); }
